@@ -1,5 +1,5 @@
 ------------------------------ MODULE TimerList ------------------------------
-(* DRAFT (round 0).  Literal model of may_queue/src/mpsc_list_v1.rs: a Vyukov MPSC list made
+(* Literal model of may_queue/src/mpsc_list_v1.rs: a Vyukov MPSC list made
    doubly linked so that the consumer can remove() an entry through its handle.
    Naming follows the code: producers swap `head` (newest end); the consumer owns `tail`,
    which always points at a stub (the node popped last).  remove()/pop()/pop_if()/peek() are
